@@ -13,7 +13,7 @@ THEOREMS = ["C05_encode_is_reference", "C05_reference_is_mixed_radix", "C05_deco
 CONE = ["Proofs/CoderProofs.v", "Proofs/ShuffleProofs.v", "Proofs/VTProofs.v", "Proofs/ConvertProofs.v",
         "Proofs/BignumProofs.v", "Coder.v", "Convert.v", "Bignum.v", "CoderSpec.v", "FastSpec.v", "GraphSpec.v", "Spec.v", "Py.v"]
 MODEL_FUNCTIONS = ["encode", "decode", "calculus_division", "calculus_multiplication", "calculus_addition", "number_to_bit"]
-RULE = ("encode output against an independent integer-arithmetic reference coder written from the property text (mixed radix, "
+RULE = ("two messages of 3340 and 3600 bits (thorough up to 6700; decimal value beyond 1000 digits); encode output against an independent integer-arithmetic reference coder written from the property text (mixed radix, "
         "little-endian, digit d = live arc whose table entry is d-th smallest, two bits MSB-first at 4-way / one bit at 2-way "
         "vertices in fast mode), on well-formed graphs of order 1..4 with mixed out-degrees, all start-vertex kinds, tables "
         "none / permutation, both modes; decode of ARBITRARY walks (not only encoder outputs) against the reference value "
@@ -34,6 +34,12 @@ NUC = "ACGT"
 def payloads(rng, tier):
     n = {"quick": 1500, "thorough": 25000, "search": 1500}[tier]
     kmax = {"quick": 3, "thorough": 4, "search": 3}[tier]
+    # very long messages (values beyond 10^1000: the decimal string has more than one thousand digits)
+    for L in {"quick": [3340, 3600], "thorough": [3340, 3600, 4000, 6700], "search": [3600]}[tier]:
+        k, kind, rows, v0 = cc.graph_case(rng, 2)
+        bits = [1] + [rng.randint(0, 1) for _ in range(L - 1)]
+        yield "encode", {"k": k, "rows": rows, "v0": v0, "bits": bits, "fast": False,
+                         "table": gen.random_table(rng, len(rows)) if rng.random() < 0.5 else None, "kind": kind}
     for _ in range(n):
         k, kind, rows, v0 = cc.graph_case(rng, kmax)
         fast = rng.random() < 0.35
